@@ -244,6 +244,11 @@ impl FileSystem for FakeFileSystem {
     }
 
     fn glob(&self, pattern: &str) -> Result<Vec<PathBuf>, LoadError> {
+        // Stored paths are canonical, so `.` and `..` in the pattern must be resolved as well.
+        let pattern = self.canonicalize_path(Path::new(pattern));
+        let pattern = pattern.to_str().ok_or_else(|| {
+            LoadError::InvalidUnicodePath(format!("{}", pattern.display()))
+        })?;
         let pattern = glob::Pattern::new(pattern)?;
         let mut paths: Vec<PathBuf> = self
             .0
